@@ -16,7 +16,7 @@ META = {
              "points and one experiment repetition; distinct by input hash; non-trivial = the list contains a 0 or a 1 and another value"),
     "assumptions": ["both sides are library code; the oracle is their agreement as stated (heralded, stabilizer+projected, calibration, cycle length; 0-round exception)"],
     "floors": {
-        "quick": {"experiments": 380, "ancillas_compared": 600, "zero_round_blocks": 80, "one_round_blocks": 80},
+        "quick": {"experiments": 380, "order_kernel_first": 80, "order_kernel_between_two_circuits": 80, "ancillas_compared": 600, "zero_round_blocks": 80, "one_round_blocks": 80},
         "thorough": {"experiments": 3900, "ancillas_compared": 6000, "zero_round_blocks": 800, "one_round_blocks": 800},
     },
 }
@@ -34,6 +34,7 @@ def gen_input(rng: random.Random) -> Dict[str, Any]:
     if rng.random() < 0.5 and length >= 2:
         inp["rounds"][rng.randrange(length)] = rng.choice([v for v in (0, 1) if v not in inp["rounds"]] or [inp["rounds"][0]])
         inp["rounds"] = list(dict.fromkeys(inp["rounds"]))
+    inp["order"] = rng.choice(["circuit_first", "kernel_first", "kernel_between_two_circuits"])
     return inp
 
 
@@ -46,10 +47,35 @@ def check_input(inp: Dict[str, Any], acc: Acc):
     case = {"library": inp}
     rounds = inp["rounds"]
     description = libgen.description_of(inp)
-    circuit = construct_repetition_code_multi_round_circuit(qec_cycles=rounds, description=description, initial_state=libgen.initial_state_of(inp))
-    kernel = RepetitionExperimentKernel(rounds=rounds, heralded_initialization=True, qutrit_calibration_points=True,
-                                        involved_data_qubit_ids=description.data_qubit_ids, involved_ancilla_qubit_ids=description.ancilla_qubit_ids,
-                                        experiment_repetitions=1)
+    ids_before = ([q.id for q in description.data_qubit_ids], [q.id for q in description.ancilla_qubit_ids])
+
+    def make_kernel():
+        return RepetitionExperimentKernel(rounds=rounds, heralded_initialization=True, qutrit_calibration_points=True,
+                                          involved_data_qubit_ids=description.data_qubit_ids, involved_ancilla_qubit_ids=description.ancilla_qubit_ids,
+                                          experiment_repetitions=1)
+
+    def make_circuit():
+        return construct_repetition_code_multi_round_circuit(qec_cycles=rounds, description=description, initial_state=libgen.initial_state_of(inp))
+
+    # the statement does not prescribe which of the two is built first from one description
+    order = inp.get("order", "circuit_first")
+    acc.count("order_" + order)
+    if order == "kernel_first":
+        kernel = make_kernel()
+        circuit = make_circuit()
+    elif order == "kernel_between_two_circuits":
+        first = make_circuit()
+        kernel = make_kernel()
+        circuit = make_circuit()
+        if len(first.operations) != len(circuit.operations):
+            acc.finding("description/reuse", "a second experiment circuit built from the same description (after the kernel) differs from the first", case,
+                        {"first": len(first.operations), "second": len(circuit.operations)})
+    else:
+        circuit = make_circuit()
+        kernel = make_kernel()
+    ids_after = ([q.id for q in description.data_qubit_ids], [q.id for q in description.ancilla_qubit_ids])
+    if ids_after != ids_before:
+        acc.finding("description/changed", "constructing the kernel / circuit changed the qubit lists of the description", case, {"before": ids_before, "after": ids_after})
     acc.count("experiments")
     acc.count("zero_round_blocks", rounds.count(0))
     acc.count("one_round_blocks", rounds.count(1))
